@@ -29,7 +29,7 @@ def svd_kernel(mat, assume_full_rank=False, matching_rank=True,
         kernel_dim = (kernel_dims).flatten()[0]
 
     if matching_rank:
-        return v[..., v.shape[-2] - kernel_dim:, :].swapaxes(-1, -2)
+        return np.conjugate(v[..., v.shape[-2] - kernel_dim:, :]).swapaxes(-1, -2)
 
     possible_dims = np.unique(kernel_dims)
     kernel_bases = []
@@ -38,7 +38,7 @@ def svd_kernel(mat, assume_full_rank=False, matching_rank=True,
     for kernel_dim in possible_dims:
         where_dim = (kernel_dims == kernel_dim)
         kernel_bases.append(
-            v[where_dim, v.shape[-2] - kernel_dim:, :].swapaxes(-1, -2)
+            np.conjugate(v[where_dim, v.shape[-2] - kernel_dim:, :]).swapaxes(-1, -2)
         )
         kernel_dim_loc.append(where_dim)
 
